@@ -113,6 +113,28 @@ Theorem C11_stats_sender :
 Proof. exact sender_counters. Qed.
 Print Assumptions C11_stats_sender.
 
+(* Stats agree with the bytes moved.  For all buffer sizes >= 16, every op
+   sequence, every segmentation, EOF with or after the final bytes, and ANY
+   sequence of typed receives (matching or not, complete or not, failing or
+   not): Sent = number of bytes handed to the transport; Recvd + what the
+   transport still holds = that number (Recvd = bytes pulled from the
+   transport, including payloads larger than the read buffer, whose bytes all
+   pass through Fill); if the receiver has consumed the stream exactly then
+   Recvd = Sent; and for a script ending in Flush/Close received by the
+   matching sequence this is the case (with the values of C11_roundtrip). *)
+Theorem C11_stats_agree :
+  forall (nbuf wcap rcap : N) (ops : list op) (frags : list N) (eofdata : bool) (tys : list ty),
+    (16 <= wcap)%N -> (16 <= rcap)%N ->
+    let s := run_sender nbuf wcap ops in
+    let out := recv_all rcap tys (r_init (mkT (wire_bytes s) frags eofdata 0)) in
+    s_sent s = nlen (wire_bytes s) /\
+    (r_recvd (fst out) + nlen (t_stream (r_t (fst out))))%N = nlen (wire_bytes s) /\
+    (all (fst out) = [] -> r_recvd (fst out) = s_sent s) /\
+    (close_only_last ops -> ends_flushed ops -> Forall op_in_domain ops -> tys = types_of ops ->
+     snd out = Some (values_of ops) /\ r_recvd (fst out) = s_sent s).
+Proof. exact stats_agree. Qed.
+Print Assumptions C11_stats_agree.
+
 (* Ring ownership.  In every state reachable by ANY interleaving of the main
    thread (NewConn, stores into the write buffer, Flush = send + receive,
    Close = close + drain) and the writer goroutine (allocate, take, Write,
